@@ -1,4 +1,4 @@
-\* spec -> code (thorough): every session of 2 statements on two connections
+\* spec -> code (thorough): every session of 2 statements on two connections, each typed or stored in the ledger and submitted with .run
 CONSTANTS
   Headers <- Empty
   Pool <- Empty
@@ -12,6 +12,7 @@ CONSTANTS
   Variant = "shipped"
   NConn = 2
   MaxSteps = 2
+  Routes = {"typed", "run"}
   Mech = "shipped"
 INIT SInit
 NEXT SNext
